@@ -115,7 +115,46 @@ class StmtMixin:
         if m is None:
             raise Unsupported("statement %s" % type(s).__name__, s)
         self.stmt_count += 1
-        return m(s, st)
+        outs = m(s, st)
+        ghost = self.ghost_hooks.get(id(s))
+        if ghost:
+            res = []
+            for o in outs:
+                if o.kind != "normal":
+                    res.append(o)
+                    continue
+                for g in self.exec_block(ghost, o.st):
+                    if g.kind != "normal":
+                        raise Unsupported("ghost code must complete normally", s)
+                    res.append(g)
+            return res
+        return outs
+
+    def install_ghost_hooks(self, body):
+        """Sidecar ghost statements attached after real statements, matched by source prefix."""
+        self.ghost_hooks = {}
+        spec = getattr(self.con, "ghost_after", None) or []
+        ghost_names = set(getattr(self.con, "ghost_vars", ()))
+        for prefix, code in spec:
+            gstmts = ast.parse(code).body
+            for g in ast.walk(ast.Module(body=gstmts, type_ignores=[])):
+                if isinstance(g, ast.Name) and isinstance(g.ctx, ast.Store) and g.id not in ghost_names:
+                    raise Unsupported("ghost code assigns the program variable %s" % g.id)
+                if isinstance(g, ast.Call) and isinstance(g.func, ast.Attribute) and g.func.attr in MUTATORS:
+                    if self.root_name(g.func.value) not in ghost_names:
+                        raise Unsupported("ghost code mutates the program variable %s" % self.root_name(g.func.value))
+            hits = 0
+            for n in ast.walk(ast.Module(body=body, type_ignores=[])):
+                if isinstance(n, ast.stmt) and not isinstance(n, Inline):
+                    try:
+                        src = ast.unparse(n)
+                    except Exception:
+                        continue
+                    if src.startswith(prefix):
+                        self.ghost_hooks[id(n)] = gstmts
+                        hits += 1
+            if hits == 0:
+                raise Unsupported("annotation mismatch: no statement starts with %r (ghost hook)" % prefix)
 
     def s_Inline(self, s, st):
         res = []
@@ -236,6 +275,10 @@ class StmtMixin:
         hint = self.target_hint(tgt, st)
 
         def cont(v, st2):
+            if isinstance(tgt, ast.Name) and tgt.id in self.con.locals and not isinstance(v.ty, TObj) and v.ty != self.con.locals[tgt.id]:
+                lt = self.con.locals[tgt.id]
+                if isinstance(lt, TOpt) and (v.ty == TNone or v.ty == lt.elem):
+                    v = self.coerce(v, lt, s)
             _, outs = self.run(st2, lambda st_: self.assign_to(tgt, v, st_, value_node=s.value), s)
             return outs + [Outcome("normal", st2)]
 
@@ -641,7 +684,7 @@ class StmtMixin:
 
     def check_inv(self, st, k, spec, when, hyps_state=None):
         ctx = S.Ctx(st.env, old=self.old_ctx, loops=st.loops)
-        so = "loop%d" % k
+        so = "loop%s" % (k if isinstance(k, int) else "'%s'" % k[:24])
         for label, f in spec["inv"](ctx):
             self.emit(Obligation("%s/%s/%s:%s[%s]" % (self.con.qualname, st.pathname(), so, when, label), st.pc, f, kind="loop-" + when))
 
@@ -653,10 +696,10 @@ class StmtMixin:
     def s_For(self, s, st):
         if s.orelse:
             raise Unsupported("for/else", s)
-        k = self.loop_ordinals[id(s)]
+        k = self.loop_key(s)
         spec = self.con.loops.get(k)
         if spec is None:
-            raise Unsupported("loop %d of %s has no invariant" % (k, self.con.qualname), s)
+            raise Unsupported("loop %s of %s has no invariant" % (k, self.con.qualname), s)
         (n, seq, elem, extra), outs = self.run(st, lambda st_: self.iter_spec(s.iter, st_, s), s)
         res = list(outs)
         st.assume(n >= 0)
@@ -667,11 +710,13 @@ class StmtMixin:
         # arbitrary iteration
         body_st = st.fork()
         self.havoc_paths(body_st, paths)
-        t = z3.Int(fresh_name("t%d" % k))
+        t = z3.Int(fresh_name("t"))
         body_st.loops[k] = S.LoopInfo(t, n, seq, extra)
         body_st.assume(z3.And(0 <= t, t < n))
         self.assume_inv(body_st, k, spec)
-        body_st.tag("loop%d:iter" % k)
+        kt = self.loop_ordinals[id(s)]
+        body_st.tag("loop%s:iter" % kt)
+        body_st.env["_t"] = Val(TInt, t)  # ghost: iterations completed (readable by ghost code only)
         self.bind_target(s.target, elem(t), body_st, s)
         after = []
         for o in self.exec_block(s.body, body_st):
@@ -679,7 +724,7 @@ class StmtMixin:
                 o.st.loops[k] = S.LoopInfo(t + 1, n, seq, extra)
                 self.check_inv(o.st, k, spec, "preserve")
             elif o.kind == "break":
-                o.st.tag("loop%d:break" % k)
+                o.st.tag("loop%s:break" % kt)
                 after.append(o.st)
             else:
                 res.append(o)
@@ -688,13 +733,27 @@ class StmtMixin:
         self.havoc_paths(ex, paths)
         ex.loops[k] = S.LoopInfo(n, n, seq, extra)
         self.assume_inv(ex, k, spec)
-        ex.tag("loop%d:exit" % k)
+        ex.tag("loop%s:exit" % kt)
         after.append(ex)
         for a in after:
             for nm in self.target_names(s.target):
                 a.owned.discard(nm)
             res.append(Outcome("normal", a))
         return res
+
+    def loop_key(self, s):
+        """Loops are keyed by ordinal, or by a prefix of their header's source text."""
+        k = self.loop_ordinals[id(s)]
+        if k in self.con.loops:
+            return k
+        try:
+            head = "for %s in %s" % (ast.unparse(s.target).strip("()"), ast.unparse(s.iter)) if isinstance(s, ast.For) else "while " + ast.unparse(s.test)
+        except Exception:
+            head = ""
+        hits = [key for key in self.con.loops if isinstance(key, str) and head.startswith(key)]
+        if len(hits) == 1:
+            return hits[0]
+        return k
 
     def target_names(self, t):
         if isinstance(t, ast.Name):
